@@ -501,6 +501,8 @@ def _sym_hooks(sym):
             sym.decodes[-1].setdefault("fn", env.get("@fname"))
 
     def unpack(itp, recv, a, k, env, d, e):
+        if recv[1].endswith("Struct()") and recv[2] and recv[2][0][0] == "c" and len(a) >= 1:
+            a = [recv[2][0]] + list(a[-1:])              # a precompiled struct.Struct(fmt): its format is the constructor argument
         if len(a) == 2 and a[0][0] == "c":
             r = sym.decode_unpack(a[0][1], a[1])
             tag(env)
@@ -796,6 +798,9 @@ def sym_send(repo, n, enabled):
     hooks = runner.hooks()
 
     def pack(itp, recv, a, k, env, d, e):
+        if recv[1].endswith("Struct()") and recv[2] and recv[2][0][0] == "c":
+            a = [x for x in a if x is not recv[2][0]]
+            a = [recv[2][0]] + [x for x in a]
         if a and all(x[0] == "c" for x in a):
             try:
                 return ("c", struct.pack(*[x[1] for x in a]))
@@ -878,7 +883,53 @@ def analyse_send_sym(ctx, Hr):
 
 
 
+def rule_flag_history(ctx):
+    """the segmentation switch is looked up on every call: one layer object is used with the option off and then - as
+    on_auth does - with the option on (and the other way round); each call must behave according to the option's value
+    at that moment (a remembered first answer sends the login's frames without a length header)"""
+    from ..absint import Interp, _Raise, flat_effects
+    from ..layers import LayerRunner
+    from ..symbuf import SymExt, Buf
+    repo = ctx.repo
+    cls = repo.cls(FILE, CLS)
+    PROP = _prop_enabled(repo)
+    fn = repo.method(FILE, CLS, "send")
+    W = where(FILE, CLS + ".send", fn.lineno)
+    bad, problem = [], None
+    for first in (False, True):
+        runner = LayerRunner(repo, {PROP: first})
+        hooks = runner.hooks()
+        hooks["ext:*.pack"] = lambda itp, recv, a, k, env, d, e: (("c", struct.pack(*[x[1] for x in ([recv[2][0]] if recv[1].endswith("Struct()") and recv[2] else []) + list(a)])) if all(x[0] == "c" for x in a) else None)
+        it = Interp(repo, {}, {}, hooks=hooks)
+        it.sym = SymExt()
+        it.layer_base = runner.base
+        layer = runner.make_layer(it, cls)
+        counts = []
+        try:
+            for enabled in (first, not first, first):
+                runner.props[PROP] = enabled
+                it.effects[:] = []
+                it.method_call(layer, "send", [("bufobj", Buf("D", {}, {1: 5}))], {}, {"@module": cls.module, "@owner": cls}, 0, None)
+                n = len([e for e in flat_effects(it.effects) if e[0] == "DOWN"])
+                counts.append((enabled, n))
+        except _Raise as r:
+            problem = r.text
+            break
+        except Exception as x:
+            problem = "%s: %s" % (type(x).__name__, x)
+            break
+        for enabled, n in counts:
+            if n != (2 if enabled else 1):
+                bad.append("option %s at the time of the call: %d write(s) (history %s)" % ("on" if enabled else "off", n, [("on" if e else "off") for e, _n in counts]))
+    if problem:
+        ctx.undecided("C05.state", W, fn, "send could not be followed over a history of option values: " + problem)
+    else:
+        ctx.check("C05.state", not bad, W, "segmentation option looked up on every call",
+                  "the segmentation switch is remembered across calls instead of being read when it matters: " + "; ".join(bad[:2]), "each call follows the option's current value")
+
+
 def rule_state(ctx):
+    ctx.guarded("C05.state", rule_flag_history, ctx)
     from ..state import per_instance_state
     cls = ctx.repo.cls(FILE, CLS)
     from ..state import shared_defaults
